@@ -17,7 +17,7 @@ EXPLANATION = (
     " R5 also decides that every frame the writer emits advances `position` by that frame's size: after each call that writes a frame (write_frame, or a helper of the same return type whose result derives from it) every success path adds a value derived from that call to the position field."
     " (R6) pairing: a reader function that stamps a loaded block with its compressed position also moves the running `position` past that block (a write derived from Block::size, directly or through a reader function it calls), in all four reader variants."
     " (R7) every seek request seeks: the async reader's poll_seek state machine cannot return Ready(Ok) from its resting state without passing the arm that seeks the inner reader (genuine defect F29, repaired: a repeated request for the same position was answered without seeking)."
-    " R2 also guards the async twin: async seek / poll_seek position the in-block cursor through a helper that compares the offset with the data length (genuine defect F42, repaired; the caller table used to excuse the async side). R6 treats a Poll::Pending return as an exit.")
+    " R2 also guards the async twin: async seek / poll_seek position the in-block cursor through a helper that compares the offset with the data length (genuine defect F42, repaired; the caller table used to excuse the async side). R6 treats a Poll::Pending return as an exit. (R1, clause added in round 8) both seeks re-stamp the discarded block themselves after the inner seek.")
 ASSUMPTIONS = ["the inner Seek::seek positions the source at the requested compressed offset",
                "crossbeam/rayon deliver blocks in ticket order (C03)"]
 NOT_DECIDED = ["equality with a flat-array reference model over arbitrary read/seek histories",
